@@ -32,6 +32,7 @@ VERUS_ARGS = ['--multiple-errors', '50', '--output-json', '--time', '--error-for
 
 KINDS = [
     ('postcondition not satisfied', 'post'),
+    ('unable to prove post-condition of closure', 'post'),   # the `ensures` an extraction rule puts on a closure of the real code
     ('precondition not satisfied', 'pre'),
     ('precondition not met', 'pre'),     # built-in preconditions, e.g. 'index in bounds for this access': the real code would panic
     ('invariant not satisfied before loop', 'inv-entry'),
